@@ -17,15 +17,18 @@ vars == <<pos, ek, depth, lims>>
 Lim(mn, mx) == [min |-> mn, max |-> mx]     \* -1 = absent
 FullOpts  == {Lim(-1, -1), Lim(1, -1), Lim(2, -1), Lim(-1, 1), Lim(-1, 2), Lim(1, 2), Lim(2, 2), Lim(-1, 0), Lim(2, 3)}
 SmallOpts == {Lim(-1, -1), Lim(1, -1), Lim(-1, 2), Lim(2, 3)}
-Opts(d) == IF Tier = "quick" /\ d = 3 THEN SmallOpts ELSE FullOpts
+Opts(d, k) == IF Tier = "quick" /\ (d = 3 \/ k = "cint") THEN SmallOpts ELSE FullOpts
 
 ArrPositions == {"req", "opt", "nullopt", "nullreq", "defreq", "defopt", "optdefault"}
 
+\* "cint": a primitive element with a constraint of its own ("its elements are validated by their own element
+\* schema"): integer with minimum 1
 ElemSchema(k) == IF k = "int" THEN [type |-> <<"integer">>]
+                 ELSE IF k = "cint" THEN ("type" :> <<"integer">>) @@ ("minimum" :> JNum(4))
                  ELSE ("type" :> <<"object">>) @@ ("properties" :> <<[k |-> "k", s |-> [type |-> <<"integer">>]]>>)
                       @@ ("required" :> <<"k">>)
-ElemDoc(k)    == IF k = "int" THEN JNum(0) ELSE JObj(<<KV("k", JNum(4))>>)
-BadElem(k)    == IF k = "int" THEN JStr(<<"a">>) ELSE JObj(<<>>)
+ElemDoc(k)    == IF k = "int" THEN JNum(0) ELSE IF k = "cint" THEN JNum(4) ELSE JObj(<<KV("k", JNum(4))>>)
+BadElem(k)    == IF k = "int" THEN JStr(<<"a">>) ELSE IF k = "cint" THEN JNum(0) ELSE JObj(<<>>)
 
 RECURSIVE ArrSchema(_, _, _)
 ArrSchema(ls, k, ekind) ==
@@ -72,17 +75,20 @@ Set == lims # <<>>
 RECURSIVE Leaves(_)
 Leaves(v) == IF v.t = "arr" THEN UNION {Leaves(v.a[i]) : i \in DOMAIN v.a} ELSE {v}
 ElemOK(ekind, e) == IF ekind = "int" THEN e.t = "num" /\ IsIntegral(e)
+                    ELSE IF ekind = "cint" THEN e.t = "num" /\ IsIntegral(e) /\ e.h >= 4
                     ELSE e.t = "obj" /\ ObjHas(e, "k")
 RECURSIVE ShapeOK(_, _)     \* typed decode into [][]..T: exactly d levels of arrays
 ShapeOK(v, d) == IF d = 0 THEN v.t # "arr" ELSE v.t = "arr" /\ \A i \in DOMAIN v.a : ShapeOK(v.a[i], d - 1)
 
 \* a declared array type ($ref position) has anonymous-struct elements: typed decode only
-ElemTypedOK(ekind, e) == IF ekind = "int" THEN e.t = "num" /\ IsIntegral(e) ELSE e.t = "obj"
+ElemTypedOK(ekind, e) == IF ekind \in {"int", "cint"} THEN e.t = "num" /\ IsIntegral(e) ELSE e.t = "obj"
 
 ImplAccepts(unit, d, D) ==
   ImplPos(unit, d, LAMBDA v :
      /\ ShapeOK(v, depth)
-     /\ \A e \in Leaves(v) : IF PosViaDef(unit.pos) /\ "DeclaredArrayElemUnvalidated" \in D
+     \* deviation "ArrayItemConstraintsIgnored": an inline primitive items schema only picks the element's Go type
+     /\ \A e \in Leaves(v) : IF \/ (PosViaDef(unit.pos) /\ "DeclaredArrayElemUnvalidated" \in D)
+                                  \/ (ek = "cint" /\ "ArrayItemConstraintsIgnored" \in D)
                                THEN ElemTypedOK(ek, e) ELSE ElemOK(ek, e)
      /\ IF PosViaDef(unit.pos) /\ "NamedArrayUnvalidated" \in D THEN TRUE
         ELSE ImplArrLengthsAccept(Leaf(unit), v, D))
@@ -99,9 +105,9 @@ DesignOK == Set => LET unit == u IN Agree(unit, {})
 \* and switches inside the reference semantics (JV.Valid) predict the same verdicts
 AsIsOK   == Set => LET unit == u IN Agree(unit, Devs)
 
-Init == pos \in ArrPositions /\ ek \in {"int", "obj"} /\ depth \in 1..3 /\ lims = <<>>
+Init == pos \in ArrPositions /\ ek \in {"int", "obj", "cint"} /\ depth \in (IF ek = "cint" THEN 1..2 ELSE 1..3) /\ lims = <<>>
 Pick == /\ lims = <<>>
-        /\ lims' \in [1..depth -> Opts(depth)]
+        /\ lims' \in [1..depth -> Opts(depth, ek)]
         /\ UNCHANGED <<pos, ek, depth>>
 Next == Pick
 Spec == Init /\ [][Next]_vars
